@@ -1,5 +1,5 @@
 (* C19 -- never_early, proved for every comparison record that is the intended one (cmp_ok) and every schedule in
-   which no timer expiry is delivered inside a critical section (no_cs_fire): a handler never runs before
+   the deferred branch of handle_timeout leaves the bookkeeping untouched (/repo 918b3df): EVERY schedule: a handler never runs before
    (timer time at constructor entry) + delay.
    The invariant: with K = now + rem - time_so_far - last_time_requested (the offset between timer time and the
    program's virtual clock, constant under ticks, and only ever growing when a call re-arms the timer),
